@@ -250,7 +250,7 @@ func main() {
 	}
 	tGen := time.Since(t0).Seconds() - tLoad
 	x.finalizeNames()
-	scfg := solveCfg{dir: filepath.Join(outDir, "smt"), fastSecs: 3, fullSecs: 12, jobs: 10, keepFiles: *keep}
+	scfg := solveCfg{dir: filepath.Join(outDir, "smt"), fastSecs: 3, fullSecs: 20, jobs: 10, keepFiles: *keep}
 	if *tier == "thorough" {
 		scfg.fullSecs = 60
 		scfg.confirm = true
@@ -368,6 +368,11 @@ func main() {
 		rp := filepath.Join(outDir, "lemma_error.txt")
 		os.WriteFile(rp, []byte("lemma could not be evaluated: "+e+"\n"), 0o644)
 		printed = append(printed, fmt.Sprintf("VIOLATION property=%s replay=%s no-failing-input-found", *prop, rp))
+	}
+	if os.Getenv("GOVC_TRACE") != "" {
+		for _, o := range x.obls {
+			fmt.Fprintf(os.Stderr, "query %6.2fs %-8s %-40s %s %s\n", o.Secs, o.Result, o.Solver, o.Name, filepath.Base(o.File))
+		}
 	}
 	if *dump || *verbose {
 		for _, m := range oblList {
